@@ -1,6 +1,8 @@
 import VarmqVerif.Model.Res
 import VarmqVerif.Model.Job
 import VarmqVerif.Model.Sig
+import VarmqVerif.Model.Wake
+import VarmqVerif.Model.Ack
 import Driver.Parse
 /-!
   Correspondence replay (DESIGN.md §3.3 (a)): the raw event lines of an implementation execution
@@ -300,4 +302,125 @@ def feed (st : RState St) (lineNo : Nat) (l : RawLine) : RState St :=
       | .error e => .rejected lineNo s!"{e} @ {l.tag} {l.g} {" ".intercalate l.f}"
   | r => r
 end SigMap
+
+-- ---------------------------------------------------------------- Wake
+namespace WakeMap
+open Wake
+
+structure St where
+  s : State := Wake.init 1
+  queue : Option String := none      -- the single queue this model follows
+  sigMade : Bool := false
+
+def isQueueObj (o : String) : Bool := o.startsWith "Queue#" || o.startsWith "PriorityQueue#"
+
+def events (x : St) (l : RawLine) : Except String (St × List Ev) :=
+  let g := l.g
+  let s := x.s
+  match l.tag, l.f with
+  | "A", _ => .error "NA adapter-backed queue"
+  | "E", [fn, obj, op, arg, res] =>
+    if obj.startsWith "worker#" && !(obj.startsWith "worker#1.") then .error "NA second worker"
+    else if obj.endsWith ":eventLoopSignal" then
+      if op == "make" then (if x.sigMade then .error "NA restart (second signal channel)" else .ok ({ x with sigMade := true }, []))
+      else if op == "close" then .error "NA stop (signal channel closed)"
+      else if op == "recv" then (if res == "closed" then .error "NA stop" else .ok (x, [.recvTok g]))
+      else if op == "trysend" then .ok (x, [.notify g (res == "true")])
+      else .error s!"unmodelled operation {op} on the signal channel in {fn}"
+    else if obj == "worker#1.mx" then
+      if op == "lock" then .ok (x, [.lockMx g]) else if op == "unlock" then .ok (x, [.unlockMx g]) else .ok (x, [])
+    else if obj.startsWith "Cond#" then
+      if op == "park" then .ok (x, [.wPark g]) else if op == "wake" then .ok (x, [.wWake g])
+      else if op == "broadcast" then .ok (x, [.bcast g (natOf res)]) else .error s!"unmodelled operation {op} on the condition variable"
+    else if obj == "worker#1.status" then
+      if op == "store" then .ok (x, [.stStatus g (natOf arg)])
+      else if op == "load" && fn == "worker.IsRunning" && isDisp s g && (s.dph == .fresh || s.dph == .busy) then .ok (x, [.dStatus g (natOf res)])
+      else if op == "load" && fn == "worker.WaitUntilFinished$1" then .ok (x, [.wStatus g (natOf res)])
+      else .ok (x, [])
+    else if obj == "worker#1.curProcessing" then
+      if op == "load" && fn == "worker.goEventLoop$1" then .ok (x, [.dCur g (natOf res)])
+      else if op == "load" && fn == "worker.WaitUntilFinished$1" then .ok (x, [.wCur g (natOf res)])
+      else if op == "cas" && res == "true" then (if isDisp s g then .ok (x, [.dCasOk g]) else .error "reserve CAS by a goroutine that is not the event loop")
+      else if op == "add" then (if isDisp s g then .ok (x, [.dRel g (natOf res)]) else .ok (x, [.relX g (natOf res)]))
+      else .ok (x, [])
+    else if obj == "worker#1.concurrency" then
+      if op == "load" && fn == "worker.goEventLoop$1" then .ok (x, [.dConc g (natOf res)])
+      else if op == "store" then
+        if fn.startsWith "new" then .ok ({ x with s := Wake.init (natOf arg) }, []) else .ok (x, [.stConc g (natOf arg)])
+      else .ok (x, [])
+    else if isQueueObj obj && (op.startsWith "ret:") then
+      let q := x.queue.getD obj
+      let x := { x with queue := some q }
+      if q != obj then .error "NA several queues"
+      else if op == "ret:Len" then
+        (if isDisp s g && s.dph == .sawRoom then .ok (x, [.dLen g (natOf res)])
+         else if s.wph g == .sawStatus Wake.running then .ok (x, [.wLen g (natOf res)]) else .ok (x, []))
+      else if op == "ret:Enqueue" then (if res == "true" then .ok (x, [.enq g]) else .ok (x, []))
+      else if op == "ret:Dequeue" then (if res.endsWith ",true" then (if isDisp s g then .ok (x, [.dDeq g]) else .ok (x, [.deqX g])) else .ok (x, []))
+      else .ok (x, [])
+    else .ok (x, [])
+  | _, _ => .ok (x, [])
+
+def feed (st : RState St) (lineNo : Nat) (l : RawLine) : RState St :=
+  match st with
+  | .ok x =>
+    match events x l with
+    | .error e => if e.startsWith "NA" then .na e else .rejected lineNo s!"{e} @ {l.tag} {l.g} {" ".intercalate l.f}"
+    | .ok (x', evs) =>
+      match feedAll Wake.step x'.s evs with
+      | .ok s' => .ok { x' with s := s' }
+      | .error e => .rejected lineNo s!"{e} @ {l.tag} {l.g} {" ".intercalate l.f}"
+  | r => r
+end WakeMap
+end VarmqVerif.Driver
+
+namespace VarmqVerif.Driver
+-- ---------------------------------------------------------------- Ack
+namespace AckMap
+open Ack
+
+structure St where
+  s : State := Ack.init
+  payloads : List (String × Nat) := []     -- payload text ↦ sequence number
+  seen : Bool := false
+
+def seqOfAck (id : String) : Nat := natOf ((id.splitOn "-").getD 1 "0")
+
+def events (x : St) (l : RawLine) : Except String (St × List Ev) :=
+  match l.tag, l.f with
+  | "A", a :: op :: arg :: res =>
+    if a != "0" then .error "NA second adapter" else
+    let x := { x with seen := true }
+    match op, res with
+    | "preload", _ => .ok ({ x with payloads := (arg, x.s.next) :: x.payloads }, [.enq true])
+    | "enq", ["true"] => .ok ({ x with payloads := (arg, x.s.next) :: x.payloads }, [.enq true])
+    | "enq", _ => .ok (x, [.enq false])
+    | "deq", [id] => if id == "false" then .ok (x, [.deqFail]) else .ok (x, [.deq (seqOfAck id)])
+    | "ack", ok :: _ => .ok (x, [.ack (seqOfAck arg) (ok == "true")])
+    | "purge", _ => .error "NA adapter purge"
+    | _, _ => .ok (x, [])
+  | "W", "enter" :: k :: _ =>
+    if !x.seen then .ok (x, []) else
+    match x.payloads.find? (·.1 == k) with
+    | some (_, n) => .ok (x, [.enter n])
+    | none => .ok (x, [])       -- a job of an in-memory queue bound next to the adapter
+  | "W", "exit" :: k :: _ =>
+    if !x.seen then .ok (x, []) else
+    match x.payloads.find? (·.1 == k) with
+    | some (_, n) => .ok (x, [.exit n])
+    | none => .ok (x, [])
+  | "X", "recover" :: _ => .ok (x, [.recover])
+  | _, _ => .ok (x, [])
+
+def feed (st : RState St) (lineNo : Nat) (l : RawLine) : RState St :=
+  match st with
+  | .ok x =>
+    match events x l with
+    | .error e => if e.startsWith "NA" then .na e else .rejected lineNo s!"{e} @ {l.tag} {l.g} {" ".intercalate l.f}"
+    | .ok (x', evs) =>
+      match feedAll Ack.step x'.s evs with
+      | .ok s' => .ok { x' with s := s' }
+      | .error e => .rejected lineNo s!"{e} @ {l.tag} {l.g} {" ".intercalate l.f}"
+  | r => r
+end AckMap
 end VarmqVerif.Driver
